@@ -281,7 +281,7 @@ def single_cases(tier):
                     continue
                 spec = {'shape': shape, 'frame': frame, 'pos': 0, 'size': 0, 'include': 'absent', 'type': None, 'meta': m, 'visual': v}
                 out.append([spec, 'image' if frame == 'image' else frame, '.6f', None if frame == 'image' else 'arcsec'])
-    for t in ('plain', 'two words', 'with, comma', "it's", 'semi; colon'):
+    for t in ('plain', 'two words', 'with, comma', "it's", 'semi; colon', '30"', "5'", '"core"', 'beam 12" x 8"'):
         for frame in ('image', 'icrs'):
             spec = {'shape': 'text', 'frame': frame, 'pos': 0, 'size': 0, 'include': 'absent', 'type': None, 'text': t}
             out.append([spec, frame, '.6f', None if frame == 'image' else 'deg'])
